@@ -168,6 +168,14 @@ var jobKinds = map[string]func(*Job, *JobResult){}
 // ---- world building and scanning ----
 
 func resetWorld() error {
+	// the previous case may have left anything at all in place of the world root (a seeded defect can
+	// trade it for a device node): whatever is there that is not a directory goes first
+	if fi, lerr := os.Lstat("/w"); lerr != nil || !fi.IsDir() {
+		_ = os.Remove("/w")
+		if err := os.Mkdir("/w", 0o755); err != nil {
+			return err
+		}
+	}
 	ents, err := os.ReadDir("/w")
 	if err != nil {
 		return err
